@@ -37,11 +37,14 @@ class Gate:
 
 
 class NullLimiter:
+    """scripted rate limiter: the verdict for the next message is set by the driver"""
+
     def __init__(self):
-        self.verdicts = []
+        self.next = False
 
     def is_limited(self, addr, message):
-        return False
+        v, self.next = self.next, False
+        return v
 
     def cleanup(self):
         pass
@@ -293,12 +296,13 @@ class Driver:
         self.pending = []
         await self.settle()
 
-    async def msg(self, cid, message=None, text=None):
+    async def msg(self, cid, message=None, text=None, limited=False):
         c = self.conns[cid]
         if c.task.done():
             return
+        c.limiter.next = limited
         raw = text if text is not None else json.dumps(message)
-        is_event = isinstance(message, list) and len(message) >= 2 and message[0] == "EVENT"
+        is_event = isinstance(message, list) and len(message) >= 2 and message[0] == "EVENT" and not limited
         if is_event:
             await self.release_all_pending()
         self.last_add = {"k": "crash", "reason": ""}
@@ -335,7 +339,8 @@ class Driver:
             else:
                 self.ops.append({"op": kind, "c": cid})
         else:
-            self.ops.append({"op": "msg", "c": cid, "m": message, "limited": False, "rows": rows, "prep": self.last_prep,
+            c.limiter.next = False
+            self.ops.append({"op": "msg", "c": cid, "m": message, "limited": bool(limited), "rows": rows, "prep": self.last_prep,
                              "can_query": True, "add": self.last_add, "auth": {"k": "ok"}})
         self.registries.append(self._registry())
 
@@ -506,12 +511,15 @@ async def scenario(rng, backend, tier, hostile=False):
             if rng.random() < 0.05:
                 fl = []
             sidv = sid if rng.random() < 0.9 else rng.choice([5, True, None, -3])
-            await d.msg(c.cid, ["REQ", sidv] + fl)
+            await d.msg(c.cid, ["REQ", sidv] + fl, limited=rng.random() < 0.05)
         elif k == "event":
             e = rng.choice(evs)
             if rng.random() < 0.12:
                 e = dict(e, sig="00" * 64)
-            await d.msg(c.cid, ["EVENT", e])
+            if rng.random() < 0.08:
+                await d.msg(c.cid, ["EVENT", rng.choice([e, e, {}, 5, [], {"id": e["id"]}])], limited=True)
+            else:
+                await d.msg(c.cid, ["EVENT", e])
         elif k == "close":
             await d.msg(c.cid, ["CLOSE", rng.choice(sids)])
         elif k == "row":
